@@ -8,7 +8,7 @@ from lib import pyvals as pv
 from lib.gallina import gstr, gbool, glist, gpair, gopt, gnat, gN, gQ
 
 EXC_TYPES = ["ValueError", "KeyError", "RuntimeError", "ZeroDivisionError", "CustomError", "AssertionError"]
-FAULT_EXC_TYPES = EXC_TYPES + ["UnserError"]
+FAULT_EXC_TYPES = EXC_TYPES + ["UnserError", "NoSuchRecording"]
 IN_ALIASES = ["get_user", "db.fetch", "load", "cfg {p}", "in x", "svc:{p}:read", "fetch_2", "é", "a args=", "{{lit}} {p}"]
 OUT_ALIASES = ["send", "publish", "db.write", "emit_2", "log out", "notify", "out#1", "é", "w"]
 USER_KEYS = ["user:k1", "user:k2", "note", "user:é"]
@@ -349,8 +349,9 @@ def rand_opdef(rng, w, budget=14, depth=2, cls=None):
     ex = {"kind": "none"}
     r = rng.random()
     if r < 0.2:
-        ex = {"kind": "dict", "d": [[k, pv.rand_pyval(rng, 1, objs=False)] for k in
-                                    rng.sample(["tenant", "size", "k", "flag é"], rng.randrange(0, 3))]}
+        ex = {"kind": "dict" if rng.random() < 0.7 else "calls_out", "n": rng.randrange(1, 3),
+              "d": [[k, pv.rand_pyval(rng, 1, objs=False)] for k in
+                    rng.sample(["tenant", "size", "k", "flag é"], rng.randrange(0, 3))]}
     elif r < 0.27:
         ex = {"kind": "raises"}
     elif r < 0.34:
@@ -448,6 +449,10 @@ def _ev(e, env):
     return env[n] if n < len(env) else {"t": "none"}
 
 
+def _exn_name(ty):
+    return "NoSuchRecording" if ty == "NoSuchRecording" else "user:" + ty
+
+
 def twin_run(code, env=None):
     """(outcome, trace) of the program with every decorator removed.  Values in canonical tagged JSON."""
     trace = []
@@ -461,7 +466,7 @@ def twin_run(code, env=None):
         try:
             r = run(c["body"], a + [v for _, v in kw])
         except _Raise as ex:
-            trace.append({"e": "call", "alias": alias, "o": {"o": "exn", "e": "user:" + ex.ty}})
+            trace.append({"e": "call", "alias": alias, "o": {"o": "exn", "e": _exn_name(ex.ty)}})
             raise
         except _Interrupt:
             trace.append({"e": "call", "alias": alias, "o": {"o": "int"}})
@@ -500,7 +505,7 @@ def twin_run(code, env=None):
     try:
         o = {"o": "val", "v": run(code, env or [])}
     except _Raise as ex:
-        o = {"o": "exn", "e": "user:" + ex.ty}
+        o = {"o": "exn", "e": _exn_name(ex.ty)}
     except _Interrupt:
         o = {"o": "int"}
     return o, trace
